@@ -127,6 +127,80 @@ func qstressCase(s *Sexp) string {
 			}
 		})
 		return fmt.Sprintf("fill failed=%d lenbad=%d final=%d", min1(failed), min1(int(lenBad.Load())), q.Len())
+	case "badd":
+		// P producers call BlockingAdd (live context) on a queue with a small hard limit while C consumers
+		// Wait: on an open queue a BlockingAdd with a live context waits for room and then adds, it never
+		// fails; nothing is lost, duplicated or reordered per producer
+		prod, cons, capa := sxInt(s, "prod", 2), sxInt(s, "cons", 1), sxInt(s, "cap", 1)
+		bq, err := pubsub.NewQueue[int](pubsub.QueueOptions{HardLimit: capa, SoftQuota: capa})
+		if err != nil {
+			return "bad-config"
+		}
+		ctx, cancel := context.WithTimeout(context.Background(), 60*time.Second)
+		defer cancel()
+		total := prod * n
+		var got, failed, over atomic.Int64
+		seen := make([][]int, cons)
+		var wg sync.WaitGroup
+		for c := 0; c < cons; c++ {
+			wg.Add(1)
+			go func(c int) {
+				defer wg.Done()
+				for got.Load() < int64(total)-failed.Load() {
+					wctx, wcancel := context.WithTimeout(ctx, 5*time.Millisecond)
+					v, err := bq.Wait(wctx)
+					wcancel()
+					if err != nil {
+						if ctx.Err() != nil {
+							return
+						}
+						continue
+					}
+					seen[c] = append(seen[c], v)
+					got.Add(1)
+				}
+			}(c)
+		}
+		for p := 0; p < prod; p++ {
+			wg.Add(1)
+			go func(p int) {
+				defer wg.Done()
+				for i := 1; i <= n; i++ {
+					if err := bq.BlockingAdd(ctx, p*1000000+i); err != nil {
+						failed.Add(1)
+					}
+					if bq.Len() > capa {
+						over.Add(1)
+					}
+				}
+			}(p)
+		}
+		wg.Wait()
+		counts := map[int]int{}
+		orderBad := 0
+		for c := range seen {
+			lastOf := map[int]int{}
+			for _, v := range seen[c] {
+				counts[v]++
+				p, i := v/1000000, v%1000000
+				if i <= lastOf[p] {
+					orderBad++
+				}
+				lastOf[p] = i
+			}
+		}
+		dup, missing := 0, 0
+		for p := 0; p < prod; p++ {
+			for i := 1; i <= n; i++ {
+				switch k := counts[p*1000000+i]; {
+				case k == 0:
+					missing++
+				case k > 1:
+					dup++
+				}
+			}
+		}
+		return fmt.Sprintf("badd failed=%d overlimit=%d missing=%d dup=%d orderbad=%d final=%d", min1(int(failed.Load())), min1(int(over.Load())), min1(missing), min1(dup), min1(orderBad), bq.Len())
 	case "pc":
 		prod, cons := sxInt(s, "prod", 2), sxInt(s, "cons", 2)
 		ctx, cancel := context.WithTimeout(context.Background(), 30*time.Second)
